@@ -228,7 +228,7 @@ pub fn gen_init(rng: &mut Rng, dim: u8, flavour: Flavour, tier: Tier) -> State {
         }
         Flavour::Triangulate => {
             let n = 4 + rng.below(9);
-            let kind = rng.below(3);
+            let kind = [0, 1, 2, 3, 3][rng.below(5)];
             let cw = rng.chance(0.4);
             let mesh = polygon_mesh(rng, n, kind, cw);
             let extra = 2 * (n - 3) + rng.below(3);
